@@ -109,6 +109,12 @@ def pyInt (s : Str) : Option Int :=
 /-- `int(timeout.lower().replace("second-", ""))`; `none` = `ValueError` -/
 def parseTimeout (s : Str) : Option Int := pyInt (removeAll 's' ['e', 'c', 'o', 'n', 'd', '-'] (lower s))
 
+/-- the TIMEOUT header as the handler reads it: outer `none` = `ValueError` (answered 400),
+    `some none` = header absent (default timeout), `some (some n)` = `n` seconds -/
+def parseTO : Option Str → Option (Option Int)
+  | none => some none
+  | some s => (parseTimeout s).map some
+
 /-- `callback_url[1:-1]` -/
 def stripBrackets (s : Str) : Str := (s.drop 1).dropLast
 
